@@ -47,7 +47,7 @@ fn census() -> serde_json::Value {
     let mut hits = serde_json::Map::new();
     fn walk(d: &std::path::Path, f: &mut dyn FnMut(&std::path::Path)) { if let Ok(rd) = std::fs::read_dir(d) { for e in rd.flatten() { let p = e.path(); if p.is_dir() { walk(&p, f); } else if p.extension().map(|x| x == "rs").unwrap_or(false) { f(&p); } } } }
     let mut files = 0;
-    walk(std::path::Path::new("/repo/src"), &mut |p| { files += 1; if let Ok(t) = std::fs::read_to_string(p) { for pat in pats { let n = t.matches(pat).count(); if n > 0 { let e = hits.entry(pat.to_string()).or_insert(json!(0)); *e = json!(e.as_u64().unwrap() + n as u64); } } } });
+    walk(&std::path::Path::new(&mccore::repo_root()).join("src"), &mut |p| { files += 1; if let Ok(t) = std::fs::read_to_string(p) { for pat in pats { let n = t.matches(pat).count(); if n > 0 { let e = hits.entry(pat.to_string()).or_insert(json!(0)); *e = json!(e.as_u64().unwrap() + n as u64); } } } });
     json!({"files": files, "hits": hits})
 }
 
